@@ -19,6 +19,8 @@ impl<T: From<usize>> IdGenerator<T> {
     }
 
     pub fn gen(&mut self) -> T {
+        #[cfg(prqlc_verif)]
+        crate::verif_sync::point("id-gen");
         let id = self.next_id;
         self.next_id += 1;
         T::from(id)
@@ -79,6 +81,8 @@ impl NameGenerator {
     }
 
     pub fn gen(&mut self) -> String {
+        #[cfg(prqlc_verif)]
+        crate::verif_sync::point("name-gen");
         format!("{}{}", self.prefix, self.id.gen())
     }
 }
